@@ -276,20 +276,32 @@ fn key_id_for(local: u64, idx: usize) -> KeyId {
 }
 
 fn gen_honest(rng: &mut Rng, n: usize, ia_off: u64) -> Honest {
-    let keys: Vec<SigningKey> = (0..n).map(|_| gen_key(rng)).collect();
     let entries: Vec<AsEntry> = (0..n).map(|i| gen_entry(rng, ia_off + i as u64)).collect();
     let with_key_ids = rng.chance(3, 4);
+    let mac_update = rng.chance(1, 2);
+    build_honest(rng, entries, with_key_ids, mac_update)
+}
+
+/// Sign `entries` with the repo's own signing code.  One key per *AS* (entries sharing a local ISD-AS share
+/// the key and the key id of the first of them – the signing API resolves keys by ISD-AS).
+fn build_honest(rng: &mut Rng, entries: Vec<AsEntry>, with_key_ids: bool, mac_update: bool) -> Honest {
+    let n = entries.len();
+    let owner: Vec<usize> = (0..n).map(|i| (0..=i).find(|&j| entries[j].local == entries[i].local).unwrap()).collect();
+    let own_keys: Vec<SigningKey> = (0..n).map(|_| gen_key(rng)).collect();
+    let keys: Vec<SigningKey> = (0..n).map(|i| own_keys[owner[i]].clone()).collect();
     let mut table = KeyTable { by_id: HashMap::new(), by_local: HashMap::new() };
+    let mut by_ia: HashMap<u64, usize> = HashMap::new();
     for (i, e) in entries.iter().enumerate() {
-        let id = key_id_for(e.local.to_u64(), i);
+        let id = key_id_for(e.local.to_u64(), owner[i]);
         table.by_id.insert((id.isd_as, id.subject_key_id), *keys[i].verifying_key());
         table.by_local.insert(e.local.to_u64(), *keys[i].verifying_key());
+        by_ia.entry(e.local.to_u64()).or_insert(owner[i]);
     }
     let ts = if rng.chance(1, 5) { *rng.pick(&[0u32, 1, u32::MAX]) } else { rng.next() as u32 };
     let seg_id = if rng.chance(1, 5) { *rng.pick(&[0u16, 65535]) } else { rng.next() as u16 };
     let sig_ts = rng.next() as u32;
-    let idx_of = |ia: IsdAsn| (ia.to_u64() - IA_BASE - ia_off) as usize;
-    let seg = if rng.chance(1, 2) {
+    let idx_of = |ia: IsdAsn| by_ia[&ia.to_u64()];
+    let seg = if !mac_update {
         UnsignedPathSegment::new(ts, seg_id, entries)
             .try_into_signed_segment(
                 |ia| {
@@ -308,6 +320,55 @@ fn gen_honest(rng: &mut Rng, n: usize, ia_off: u64) -> Honest {
         .expect("signing")
     };
     Honest { seg, keys, table, with_key_ids }
+}
+
+/// entries of a segment that traverses one AS twice: positions `k1 < k2` share the local ISD-AS
+/// (`equal_entries`: the whole `AsEntry` is repeated, otherwise only the AS, with different interfaces)
+fn gen_repeated_entries(rng: &mut Rng, n: usize, equal_entries: bool) -> (Vec<AsEntry>, usize, usize) {
+    let mut entries: Vec<AsEntry> = (0..n).map(|i| gen_entry(rng, 200 + i as u64)).collect();
+    let k1 = rng.below((n - 2) as u64) as usize;
+    let k2 = rng.range(k1 as u64 + 2, n as u64 - 1) as usize;
+    if equal_entries {
+        entries[k2] = entries[k1].clone();
+    } else {
+        entries[k2].local = entries[k1].local;
+        if entries[k2] == entries[k1] {
+            entries[k2].hop_entry.hop_field.cons_ingress ^= 1;
+        }
+    }
+    (entries, k1, k2)
+}
+
+/// A segment signed *by position* with `SignedMessage::sign` directly – what a conforming implementation
+/// (e.g. the Go control service) produces: entry i is signed over `info ‖ (hb, sig) of entries 0..i-1`.
+/// Returned in the RPC form together with the honest signer's view.
+fn reference_signed(rng: &mut Rng, entries: &[AsEntry]) -> Option<(RpcSeg, SignedSet, Vec<SigningKey>, KeyTable)> {
+    let n = entries.len();
+    let owner: Vec<usize> = (0..n).map(|i| (0..=i).find(|&j| entries[j].local == entries[i].local).unwrap()).collect();
+    let own_keys: Vec<SigningKey> = (0..n).map(|_| gen_key(rng)).collect();
+    let keys: Vec<SigningKey> = (0..n).map(|i| own_keys[owner[i]].clone()).collect();
+    let ts = rng.next() as u32;
+    let seg_id = rng.next() as u16;
+    let info = sciparse::segment::SegmentInfo::new(ts, seg_id).encoded;
+    let mut table = KeyTable { by_id: HashMap::new(), by_local: HashMap::new() };
+    let mut rpc = RpcSeg { segment_info: info.clone(), as_entries: vec![] };
+    let mut items = vec![];
+    let mut ad: Vec<u8> = info.clone();
+    for (i, e) in entries.iter().enumerate() {
+        // the body the repo would sign for this entry (taken from a one-entry segment signed by the repo)
+        let one = UnsignedPathSegment::new(ts, seg_id, vec![e.clone()]).try_into_signed_segment(|_| Some((keys[i].clone(), None)), 0).ok()?;
+        let hb = pb::crypto::v1::HeaderAndBodyInternal::decode(one.as_entries[0].signature().header_and_body.as_slice()).ok()?;
+        let body = RpcBody::decode(hb.body.as_slice()).ok()?;
+        let id = key_id_for(e.local.to_u64(), owner[i]);
+        table.by_id.insert((id.isd_as, id.subject_key_id.clone()), *keys[i].verifying_key());
+        table.by_local.insert(e.local.to_u64(), *keys[i].verifying_key());
+        let sm = SignedMessage::sign(&keys[i], DigestAlgorithm::Sha256, ts, Some(id), (ad.len(), std::iter::once(ad.as_slice())), &body, &()).ok()?;
+        items.push((sm.header_and_body.clone(), sm.signature.clone(), ad.clone(), *keys[i].verifying_key()));
+        ad.extend_from_slice(&sm.header_and_body);
+        ad.extend_from_slice(&sm.signature);
+        rpc.as_entries.push(pb::control_plane::v1::AsEntry { signed: Some(sm.into_rpc()), unsigned: None });
+    }
+    Some((rpc, SignedSet { items }, keys, table))
 }
 
 // ------------------------------------------------------------------------------------------------
@@ -677,6 +738,14 @@ fn seg_stream_one(h: &Honest, foreign: &Honest, rng: &mut Rng, lean: &mut Lean, 
         t.as_entries.truncate(k);
         if let Ok(Ok(var)) = from_rpc_seg(t) {
             check_positions("truncation", &format!("prefix of {k}"), h, &set, &var, &all, None, Some(lean), rep, tally);
+        }
+    }
+
+    for k in 1..n {
+        let mut t = rpc.clone();
+        t.as_entries.drain(..k);
+        if let Ok(Ok(var)) = from_rpc_seg(t) {
+            check_positions("truncation", &format!("first {k} entries dropped"), h, &set, &var, &all, None, Some(lean), rep, tally);
         }
     }
 
@@ -1684,7 +1753,7 @@ fn run_corpus_line(l: &str, lean: &mut Lean, rep: &mut Report) -> bool {
 
 fn main() {
     let args = Args::parse();
-    quiet_panics();
+    if std::env::var("HX_LOUD").is_err() { quiet_panics(); }
     let mut lean = Lean::spawn(&args.driver);
     let mut rng = Rng::new(args.seed);
     let mut rep = Report::new(
@@ -1747,6 +1816,32 @@ fn main() {
         honest_segs.push(h.seg.clone());
         if rep.samples.len() < 3 {
             rep.sample(json!({"honest_segment": seg_brief(&h.seg), "exhaustive_flips": o.exhaustive_flips}));
+        }
+    }
+    // --- segments that traverse one AS twice (same local ISD-AS at two positions; whole entry equal or not):
+    //     signed by the repo's code and, for distinct entries, by a positional reference signer
+    let f = gen_honest(&mut rng, 2, 100);
+    for k in 0..args.scale(6, 60) {
+        let n = 3 + k % 3;
+        let equal = k % 3 == 2;
+        let (entries, k1, k2) = gen_repeated_entries(&mut rng, n, equal);
+        rep.hit(&format!("repeated-AS segment entries={n} positions=({k1},{k2}) equal_entries={equal}"));
+        let h = build_honest(&mut rng, entries.clone(), true, !equal && k % 2 == 0);
+        let o = SegOpts { exhaustive_flips: false, sampled_flips_per_blob: args.scale(4, 16), model_every: 1 };
+        seg_stream_one(&h, &f, &mut rng, &mut lean, &mut rep, &mut tally, &o);
+        if !equal {
+            if let Some((rpc, set, keys, table)) = reference_signed(&mut rng, &entries) {
+                match from_rpc_seg(rpc) {
+                    Ok(Ok(seg)) => {
+                        let all: Vec<usize> = (0..seg.as_entries.len()).collect();
+                        let hx = Honest { seg: seg.clone(), keys, table, with_key_ids: true };
+                        check_positions("reference-signed", "entries signed by position with SignedMessage::sign", &hx, &set, &seg, &all, None, Some(&mut lean), &mut rep, &mut tally);
+                        // and its tampered variants
+                        seg_stream_one(&hx, &f, &mut rng, &mut lean, &mut rep, &mut tally, &o);
+                    }
+                    _ => rep.spec_fail("C18:segment-roundtrip", "a positionally signed segment does not convert from RPC", json!({})),
+                }
+            }
         }
     }
     rep.notes.push(format!("seg stream done at {:.1}s: {} validations, {} compared with the model", t0.elapsed().as_secs_f32(), tally.validations, tally.model_compared));
